@@ -46,7 +46,11 @@ Does NOT require (never flagged):
     and nothing of the offending stage is delivered anywhere);
   * leftover helper threads / zombie children after a case (measured and reported in the
     evidence, not a violation of this property);
-  * the unredirected stdin of the first stage (the harness gives /dev/null).
+  * the unredirected stdin of the first stage (the harness gives /dev/null);
+  * a glob / regex-glob target without any match: it is one word (the pattern itself, as in POSIX
+    shells), so the file of that name is the target; only 0-word, >= 2-word and '' expansions must
+    be rejected (statement: "malformed redirects are reported as errors rather than silently
+    misrouted"), and then no candidate file may be created or modified.
 """
 
 import itertools
@@ -600,6 +604,8 @@ def _exp_text(m):
 
 POSITIONS = {"only": (1, 1), "first2": (1, 2), "last2": (2, 2), "mid3": (2, 3), "first3": (1, 3), "first4": (1, 4), "second4": (2, 4), "third4": (3, 4)}
 PRODUCT_POS = ("only", "first2", "last2", "mid3")
+# the product position whose single-operator case is the simpler sibling of a chain position
+POS_ANALOG = {"first3": "first2", "first4": "first2", "second4": "mid3", "third4": "mid3"}
 CAPTURES = ("bare", "![]", "$[]", "$()", "!()", "@$()")
 
 
@@ -970,8 +976,15 @@ def run(ctx):
         if kind_of(sig) == "route" and base.get((shape(case), case["capture"])) == sig:
             keys[idx] = f"NONE:{shape(case)}:{case['capture']}:{sig}"
             continue
-        for c in m["class"].split("+"):
-            j = single.get((c, m["kind"], m["pos"], case["capture"]))
+        # candidate simpler inputs: (class, stage kind, analogous product position)
+        cands = []
+        if m["family"] == "cross":
+            for jpos, st in zip(("first2", "mid3", "last2"), case["stages"]):
+                cands += [(classify(r["op"]), st["kind"], jpos) for r in st["redirs"]]
+        else:
+            cands = [(c, m["kind"], POS_ANALOG.get(m["pos"], m["pos"])) for c in m["class"].split("+")]
+        for c, knd, ps in cands:
+            j = single.get((c, knd, ps, case["capture"]))
             if j is not None and sigs[j] is not None and kind_of(sigs[j]) == kind_of(sig):
                 keys[idx] = keys[j]
                 break
@@ -1017,7 +1030,10 @@ def run(ctx):
             f"every one of {len(UNIVERSE)} redirect spellings (documentation table + decoding tables + tokenizer map) x stage kinds "
             f"{'ext/thr/unthr' if ctx.thorough else 'ext/thr'} x positions only/first-of-2/last-of-2/middle-of-3 x neighbours "
             f"{'ext|thr (all combinations)' if ctx.thorough else 'ext'} x 6 capture forms x target missing/existing, plus all 121 ordered pairs of operator "
-            "classes on one stage, the malformed/unusable-target list, the no-space forms and the tutorial's combined example; each line executed by the real "
+            "classes on one stage, the malformed/unusable-target list, the no-space forms and the tutorial's combined example; chains: every class / class pair "
+            f"that is legal on a non-last stage on the first and middle stage of 3-stage pipelines{' and every non-last stage of 4-stage pipelines' if ctx.thorough else ''}; "
+            "cross: 8 x 6 x 6 redirect sets on stages 1/2/3 of one pipeline at once; target forms: 15 expansions (glob / regex-glob with 0,1,2 matches, @(list) with "
+            "0,1,2 elements, @(tuple), @(str), @(''), $VAR, $VAR with a space, quoted names) x 6 file operators; each line executed by the real "
             "Execer in its own forked process with harness-owned fds 0/1/2; non-trivial = the line has at least one redirect or pipe"
         ),
         exhaustive=True,
@@ -1032,12 +1048,13 @@ def run(ctx):
         cases_with_leftover_children=sum(1 for r in res if r["live_children"]),
         exec_seconds_total=round(sum(r["exec_s"] for r in res), 1),
         exec_seconds_max=round(max(r["exec_s"] for r in res), 2),
-        bounds={"max_stages": 3, "redirects_per_stage": 2, "case_timeout_s": H.CASE_TIMEOUT},
+        bounds={"max_stages": 4 if ctx.thorough else 3, "redirects_per_stage": 2, "case_timeout_s": H.CASE_TIMEOUT},
     )
     ctx.assumptions += [
         "session configuration: THREAD_SUBPROCS=True, XONSH_INTERACTIVE=False, XONSH_CAPTURE_ALWAYS unset, terminal fds are regular files (not ttys)",
         "stages are well-behaved: read all stdin, write one stdout block then one stderr line, exit 0",
-        "at most 3 stages and at most 2 redirects on the stage under test (3+2 in the tutorial example)",
+        "at most 3 stages (thorough: 4) and at most 2 redirects per stage; redirects on up to 3 stages at once only for the 288 'cross' sets",
+        "xonsh's own `Exception('Unsupported redirect: ...')` counts as a reported error (it is how a multi-word target is rejected today)",
     ]
 
 
